@@ -85,6 +85,8 @@ def run(ctx: Ctx) -> None:
         total += rr["n"]
         for k, v in rr["per_kind"].items():
             per_kind[k] = per_kind.get(k, 0) + v
+        for rj in rr.get("rejected_at_export", []):
+            ctx.extra.setdefault("variants_rejected_at_export", {})[rj["template"]] = rj["error"]
         for ef in rr["export_failed"]:
             ctx.violation({"engine": "cf_replay", "template": ef["template"].split(",")[0], "what": "export_failed"}, f"supported control-flow template failed to export: {ef['template']}: {ef['error']}", ef)
         for mm in rr["mismatch"]:
